@@ -69,14 +69,15 @@ func init() {
 		{ID: "E8.error-responder.request-error", Fn: "op.RequestError", P: []string{"w", "r", "err", "logger"}, Kind: "call", Pat: "httphelper.MarshalJSONWithStatus($w, $e, _)", Max: 1,
 			Why: "the error document is the caller's error, normalised by DefaultToServerError only", Req: []string{"def($e, oidc.DefaultToServerError($err, _))"}},
 		{ID: "E8.error-responder.request-error.only", Fn: "op.RequestError", Kind: "call", Pat: "httphelper.MarshalJSONWithStatus(__)", Max: 1, Why: "one answer, the one above"},
-		// WriteError, spelled through the private writeError helper or answering directly
-		{ID: "E8.error-responder.write-error.status", AltOf: "E8.error-responder.write-error.status-error", Fn: "op.WriteError", P: []string{"w", "r", "err", "logger"}, Kind: "call", Pat: "op.writeError($w, $r, oidc.DefaultToServerError($se.parent, _), $se.statusCode, _)", Max: 1,
-			Why: "a StatusError is answered with its own parent error and status", Req: []string{"errAs($err, $se)"}},
-		{ID: "E8.error-responder.write-error.status.direct", AltOf: "E8.error-responder.write-error.status-error", Fn: "op.WriteError", P: []string{"w", "r", "err", "logger"}, Kind: "call", Pat: "httphelper.MarshalJSONWithStatus($w, $e, $code)", Max: 1,
+		// WriteError, spelled through the private writeError helper or answering directly; the two cases are told apart by the
+		// path condition (errors.As matched a StatusError or not), not by the spelling of the argument
+		{ID: "E8.error-responder.write-error.status", AltOf: "E8.error-responder.write-error.status-error", Fn: "op.WriteError", P: []string{"w", "r", "err", "logger"}, Kind: "call", Pat: "op.writeError($w, $r, $e, $se.statusCode, _)",
+			When: []string{"errAs($err, $se)"}, Why: "a StatusError is answered with its own parent error and status", Req: []string{"def($e, oidc.DefaultToServerError($se.parent, _))"}},
+		{ID: "E8.error-responder.write-error.status.direct", AltOf: "E8.error-responder.write-error.status-error", Fn: "op.WriteError", P: []string{"w", "r", "err", "logger"}, Kind: "call", Pat: "httphelper.MarshalJSONWithStatus($w, $e, $code)",
 			When: []string{"errAs($err, $se)"}, Why: "a StatusError is answered with its own parent error and status", Req: []string{"def($e, oidc.DefaultToServerError($se.parent, _))", "def($code, $se.statusCode)"}},
-		{ID: "E8.error-responder.write-error.plain", AltOf: "E8.error-responder.write-error.plain-error", Fn: "op.WriteError", P: []string{"w", "r", "err", "logger"}, Kind: "call", Pat: "op.writeError($w, $r, $e, __)", Not: "op.writeError(_, _, oidc.DefaultToServerError(__), __)", Max: 1,
-			Why: "any other error is answered as itself, normalised by DefaultToServerError only", Req: []string{"def($e, oidc.DefaultToServerError($err, _))", "notErrAs($err, _)"}},
-		{ID: "E8.error-responder.write-error.plain.direct", AltOf: "E8.error-responder.write-error.plain-error", Fn: "op.WriteError", P: []string{"w", "r", "err", "logger"}, Kind: "call", Pat: "httphelper.MarshalJSONWithStatus($w, $e, _)", Max: 1,
+		{ID: "E8.error-responder.write-error.plain", AltOf: "E8.error-responder.write-error.plain-error", Fn: "op.WriteError", P: []string{"w", "r", "err", "logger"}, Kind: "call", Pat: "op.writeError($w, $r, $e, __)",
+			When: []string{"notErrAs($err, _)"}, Why: "any other error is answered as itself, normalised by DefaultToServerError only", Req: []string{"def($e, oidc.DefaultToServerError($err, _))"}},
+		{ID: "E8.error-responder.write-error.plain.direct", AltOf: "E8.error-responder.write-error.plain-error", Fn: "op.WriteError", P: []string{"w", "r", "err", "logger"}, Kind: "call", Pat: "httphelper.MarshalJSONWithStatus($w, $e, _)",
 			When: []string{"notErrAs($err, _)"}, Why: "any other error is answered as itself, normalised by DefaultToServerError only", Req: []string{"def($e, oidc.DefaultToServerError($err, _))"}},
 		{ID: "E8.error-responder.write-error.only", Fn: "op.WriteError", Kind: "call", Pat: "op.writeError(__)", Max: 2, Opt: true},
 		{ID: "E8.error-responder.write-error.only.direct", Fn: "op.WriteError", Kind: "call", Pat: "httphelper.MarshalJSONWithStatus(__)", Max: 1, Opt: true},
